@@ -11,7 +11,7 @@ from props import C01
 META = {
     "technique": "TLA+ model of extension-content shapes x post-parse operation programs enumerated by TLC; one real certificate per shape (standard-library issuance) plus the TLC-enumerated mutated certificates of C01, every accepted one put through every operation program; observations judged by TLC",
     "text": "InputsCert.tla extends the input model by small grammars of valid-but-unusual contents for every extension zcrypto interprets (policies with every mix of CPS / user-notice qualifiers with and without notice references, SAN/IAN general-name kinds, name constraints, AIA, CRL DPs, QC statements, Tor descriptors, CABF organisation id, SCT lists, basic constraints, key ids, key usages, subject forms) and by the post-parse operations with their arguments (JSON twice, CheckSignatureFrom against self / issuer / unrelated / a same-named parent of every key shape, the certificate as a parent of Ed25519/ECDSA/RSA/PSS children, CheckSignature with every algorithm id, VerifyHostname over a host menu, name collection, CertPool and verifier Graph insertion). TLC explores shape x operation-program x outcome as a state machine (invariant: every applied operation completes, JSON identical) and exports the factor sets; the harness issues a real certificate per shape, parses it with zcrypto in both modes and applies every operation program to a fresh copy; the mutated certificates of C01 that the parser accepts go through every operation once. TLC (Trace_InputsCert.tla) judges the logged outcomes. Role P: exhaustive over the abstract shapes, sampled inside.",
-    "note": "Trusted: TLC, Go toolchain (recover), the standard library as issuer. Shapes are one extension at a time on an otherwise plain Ed25519 leaf; combinations of unusual extensions are only reached through the mutated corpus. A hang inside an operation ends the harness (watchdog) and is reported as a machinery problem, not a violation.",
+    "note": "Trusted: TLC, Go toolchain (recover), the standard library as issuer. Shapes are one extension at a time on an otherwise plain Ed25519 leaf; combinations of unusual extensions are only reached through the mutated corpus. A hanging operation is observed through a 5 s watchdog in a supervised worker and reported as a timeout violation; after three such deaths the operation is no longer applied in that run.",
 }
 
 TLC_FIELDS = ("src", "x", "v", "p", "n", "acc", "nprog", "r")
